@@ -161,6 +161,7 @@ fn main() {
             1 => gen_linear(&mut rng, 4, 8),
             _ => gen_planted(&mut rng, 4, 0.3, &SHAPES),
         };
+        let base = maybe_large(&mut rng, i, base);
         let mut sys = with_priorities(&mut rng, base);
         if rng.chance(1, 2) {
             sys = with_contradictions(&mut rng, sys);
